@@ -240,7 +240,7 @@ def _mk_prim(kind):
         elif kind == "sphere":
             o = p.Sphere(radius=1.5, transform=Tr, subdivisions=1)  # scalar parameters go through builtin float(): concrete
         elif kind == "cylinder":
-            o = p.Cylinder(radius=1.5, height=3.5, transform=Tr, sections=7)
+            o = p.Cylinder(radius=1.5, height=3.5, transform=np.array([[1, 0, 0, 2.0], [0, 1, 0, 0], [0, 0, 1, 0], [0, 0, 0, 1]]), sections=7)  # concrete placement: a symbolic offset through the revolved mesh multiplies the paths (> 5 min)
         elif kind == "capsule":
             o = p.Capsule(radius=1.5, height=3.5, transform=np.array([[1, 0, 0, 2.0], [0, 1, 0, 0], [0, 0, 1, 0], [0, 0, 0, 1]]), sections=8)  # symbolic transform through the capsule mesh does not finish
         o.metadata["nested"] = {"list": [1, 2]}
@@ -266,7 +266,10 @@ def _prim_edits(kind):
         ("metadata['nested']['list'].append", lambda o, x: o.metadata["nested"]["list"].append(5)),
         ("visual.face_colors = red", lambda o, x: setattr(o.visual, "face_colors", [255, 0, 0, 255])),
     ]
+    e.append(("primitive.transform[0,3] = 7 (in place)", lambda o, x: _force_set(o.primitive.transform, (0, 3), 7.0)))
+    # (apply_scale on a primitive takes det ** (1/3): a fractional power, not encodable - the in-place edits below reach the same aliasing)
     if kind == "box":
+        e.append(("primitive.extents[0] = 9 (in place)", lambda o, x: _force_set(o.primitive.extents, (0,), 9.0)))
         e.append(("primitive.extents = [x,x,x]", lambda o, x: setattr(o.primitive, "extents", [x, x, x])))
     else:
         e.append(("primitive.radius = 25", lambda o, x: setattr(o.primitive, "radius", 25.0)))
@@ -349,7 +352,8 @@ def _mk_scene(ctx):
     T1 = np.eye(4, dtype=object)
     T1[1, 3] = ctx.real("ty", -3, 3)
     sc.add_geometry(m, node_name="n1", geom_name="g", transform=_as(ctx, T1))
-    sc.add_geometry(m, node_name="n2", geom_name="g", parent_node_name="n1", transform=_as(ctx, [[1, 0, 0, 5], [0, 1, 0, 0], [0, 0, 1, 0], [0, 0, 0, 1]]), metadata={"tag": "orig", "nested": {"k": [1, 2]}})
+    # a second instance of the same geometry (add_geometry would register a renamed copy)
+    sc.graph.update(frame_to="n2", frame_from="n1", matrix=_as(ctx, [[1, 0, 0, 5], [0, 1, 0, 0], [0, 0, 1, 0], [0, 0, 0, 1]]), geometry="g", metadata={"tag": "orig", "nested": {"k": [1, 2]}})
     sc.metadata["nested"] = {"list": [1]}
     return sc
 
@@ -408,6 +412,9 @@ VOXEL_EDITS = [
     ("apply_scale", lambda v, x: v.apply_scale(3.0)),
     ("encoding.data[0,0,0] = True", lambda v, x: _try_set(v.encoding.data, (0, 0, 0), True)),
     ("transform matrix edited in place", lambda v, x: _try_set(v.transform, (1, 3), 8.0)),
+    ("transform matrix made writeable and edited in place", lambda v, x: _force_set(v.transform, (1, 3), 8.0)),
+    ("translation[1] = 5 (in place)", lambda v, x: _force_set(v.translation, (1,), 5.0)),
+    ("strip()", lambda v, x: v.strip()),
 ]
 
 
@@ -455,12 +462,12 @@ def units(tier):
         Unit("mesh-include_cache", u_mesh_cached, key="mesh_cached", functions=FUN, bounds="copy(include_cache=True); 2 x 2 x 11 edit sites incl. in-place writes to cached arrays", max_paths=200, wall_s=300),
     ]
     for kind in ("box", "sphere", "cylinder"):  # Capsule: the exact-arithmetic run of its mesh creation (trig/sqrt chains) does not finish: not claimed
-        us.append(Unit("primitive-" + kind, u_prim, params={"kind": kind}, key="primitive/" + kind, functions=FUN, bounds="%s with symbolic parameters and non-default construction arguments; all routes/sides/edit sites" % kind, max_paths=300, wall_s=400))
+        us.append(Unit("primitive-" + kind, u_prim, params={"kind": kind}, key="primitive/" + kind, functions=FUN, bounds="%s with symbolic parameters and non-default construction arguments; all routes/sides/edit sites" % kind, max_paths=500, wall_s=400))
     us += [
         Unit("path2d", u_path, key="path", functions=FUN, bounds="Path2D of three line entities, one symbolic coordinate; 2 x 3 x 2 x 8 edit sites", max_paths=300, wall_s=300),
         Unit("pointcloud", u_cloud, key="pointcloud", functions=FUN, bounds="3-point cloud with colours; all routes/sides/5 edit sites", max_paths=200, wall_s=300),
         Unit("scene", u_scene, key="scene", functions=FUN, bounds="scene world->n1->n2 instancing one mesh; 2 routes x 2 sides x 12 edit sites", max_paths=200, wall_s=400),
-        Unit("voxelgrid", u_voxel, key="voxel", functions=FUN, bounds="2x2x2 dense grid with symbolic offset; all routes/sides/4 edit sites", max_paths=200, wall_s=300),
+        Unit("voxelgrid", u_voxel, key="voxel", functions=FUN, bounds="2x2x2 dense grid with symbolic offset; all routes/sides/7 edit sites", max_paths=200, wall_s=300),
         Unit("colorvisuals-vertex", u_visual, key="visual", functions=FUN, bounds="ColorVisuals (vertex colours) of a mesh; 2 routes x 2 sides x 3 edits", max_paths=100, wall_s=200),
         Unit("colorvisuals-face", u_visual, params={"face": True}, key="visual", functions=FUN, bounds="ColorVisuals (face colours) of a mesh; 2 routes x 2 sides x 3 edits", max_paths=100, wall_s=200),
     ]
